@@ -81,6 +81,12 @@ Clauses(r) ==
             <<"repr-txin", RawOps(r.in.txin.script).ok => r.out.inrepr = TxInRepr(r.in.txin)>>,
             <<"repr-txout", RawOps(r.in.txout.script).ok => r.out.outrepr = TxOutRepr(r.in.txout)>>,
             <<"repr-header", r.out.hdrrepr = HeaderRepr(r.in.hdr)>> >>
+    [] r.op = "x.lows" ->
+         LET p == ParseStrict(r.in.sig) IN
+         << <<"IsLowDERSignature", p.ok => r.out.low = (~BnIsZero(p.s) /\ LowS(S256, p.s))>> >>
+    [] r.op = "x.cmpbe" ->
+         LET a == BnFromBE(r.in.a) b == BnFromBE(r.in.b) c == BnCmp(a, b) IN
+         << <<"CompareBigEndian-sign", (r.out.c > 0) = (c > 0) /\ (r.out.c < 0) = (c < 0)>> >>
     [] OTHER -> << <<"unknown-op", FALSE>> >>
 TraceInit == l = TraceStart
 TraceNext == l <= Len(Recs) /\ Judge(Recs[l], Clauses(Recs[l])) /\ l' = l + 1
